@@ -77,6 +77,10 @@ def gen_case(rng):
             ins = sc.gen_insertions(rng, v)
             if ins:
                 d["insertions"] = ins
+        if rng.random() < 0.3 and keys and (v is None or v.kind != "datetime"):
+            l = list(keys)
+            rng.shuffle(l)
+            d["order"] = {"type": "explicit", "element_ids": l[: rng.randint(0, len(l))]}
         tr[name] = d
     case["transforms"] = tr
     return case
@@ -161,9 +165,17 @@ def evaluate(case, louts, ctx):
             if not isinstance(ro, list) or not isinstance(co, list):
                 findings.append({"kind": "spec", "locus": "slice.order.raises", "detail": "%r %r" % (ro, co)})
                 continue
-            sc.compare(findings, "spec", "slice.row_order.visible-base", [x for x in ro if x >= 0], exp_rows,
+            vis_r = [x for x in ro if x >= 0]
+            vis_c = [x for x in co if x >= 0]
+            if "order" in rd:
+                vis_r = sorted(vis_r)      # an explicit order permutes; visibility is about membership
+            if "order" in cd:
+                vis_c = sorted(vis_c)
+            if len(set(ro)) != len(ro) or len(set(co)) != len(co):
+                findings.append({"kind": "spec", "locus": "slice.order.duplicate", "detail": "%r %r" % (ro, co)})
+            sc.compare(findings, "spec", "slice.row_order.visible-base", vis_r, exp_rows,
                        "k=%d hidden=%s prune=%s empty=%s" % (k, rhid, rprune, rows_empty))
-            sc.compare(findings, "spec", "slice.column_order.visible-base", [x for x in co if x >= 0], exp_cols,
+            sc.compare(findings, "spec", "slice.column_order.visible-base", vis_c, exp_cols,
                        "k=%d hidden=%s prune=%s empty=%s" % (k, chid, cprune, cols_empty))
             sc.compare(findings, "spec", "slice.row_order.subtotal-count", len([x for x in ro if x < 0]), n_rsub, "k=%d" % k)
             sc.compare(findings, "spec", "slice.column_order.subtotal-count", len([x for x in co if x < 0]), n_csub, "k=%d" % k)
@@ -201,7 +213,12 @@ def evaluate(case, louts, ctx):
         if not isinstance(ro, list):
             findings.append({"kind": "spec", "locus": "strand.order.raises", "detail": repr(ro)})
         else:
-            sc.compare(findings, "spec", "strand.row_order.visible-base", [x for x in ro if x >= 0], exp,
+            vis = [x for x in ro if x >= 0]
+            if "order" in rd:
+                vis = sorted(vis)
+            if len(set(ro)) != len(ro):
+                findings.append({"kind": "spec", "locus": "strand.order.duplicate", "detail": "%r" % (ro,)})
+            sc.compare(findings, "spec", "strand.row_order.visible-base", vis, exp,
                        "hidden=%s prune=%s empty=%s" % (hid, prune, empty))
             nsub = _n_valid_subtotals(rd)
             sc.compare(findings, "spec", "strand.row_order.subtotal-count", len([x for x in ro if x < 0]), nsub, "")
